@@ -1,7 +1,5 @@
 from typing import TYPE_CHECKING, TypedDict
 
-from prosemirror.utils import text_length
-
 from . import node as pm_node
 
 if TYPE_CHECKING:
@@ -29,24 +27,17 @@ def find_diff_start(a: "Fragment", b: "Fragment", pos: int) -> int | None:
             assert isinstance(child_a, pm_node.TextNode)
             assert isinstance(child_b, pm_node.TextNode)
             if child_a.text != child_b.text:
-                if child_b.text.startswith(child_a.text):
-                    return pos + text_length(child_a.text)
-                if child_a.text.startswith(child_b.text):
-                    return pos + text_length(child_b.text)
-                next_index = next(
-                    (
-                        index_a
-                        for ((index_a, char_a), (_, char_b)) in zip(
-                            enumerate(child_a.text),
-                            enumerate(child_b.text),
-                            strict=True,
-                        )
-                        if char_a != char_b
-                    ),
-                    None,
-                )
-                if next_index is not None:
-                    return pos + next_index
+                # positions count UTF-16 code units, so compare the texts unit by unit
+                units_a = child_a.text.encode("utf-16-le")
+                units_b = child_b.text.encode("utf-16-le")
+                j = 0
+                while (
+                    2 * j < len(units_a)
+                    and 2 * j < len(units_b)
+                    and units_a[2 * j : 2 * j + 2] == units_b[2 * j : 2 * j + 2]
+                ):
+                    j += 1
+                return pos + j
         if child_a.content.size or child_b.content.size:
             inner = find_diff_start(child_a.content, child_b.content, pos + 1)
             if inner:
@@ -79,14 +70,15 @@ def find_diff_end(a: "Fragment", b: "Fragment", pos_a: int, pos_b: int) -> Diff 
             assert isinstance(child_a, pm_node.TextNode)
             assert isinstance(child_b, pm_node.TextNode)
             if child_a.text != child_b.text:
-                same, min_size = (
-                    0,
-                    min(text_length(child_a.text), text_length(child_b.text)),
-                )
+                # positions count UTF-16 code units, so compare the texts unit by unit
+                units_a = child_a.text.encode("utf-16-le")
+                units_b = child_b.text.encode("utf-16-le")
+                len_a, len_b = len(units_a) // 2, len(units_b) // 2
+                same, min_size = 0, min(len_a, len_b)
                 while (
                     same < min_size
-                    and child_a.text[text_length(child_a.text) - same - 1]
-                    == child_b.text[text_length(child_b.text) - same - 1]
+                    and units_a[2 * (len_a - same - 1) : 2 * (len_a - same)]
+                    == units_b[2 * (len_b - same - 1) : 2 * (len_b - same)]
                 ):
                     same += 1
                     pos_a -= 1
